@@ -243,7 +243,9 @@ def as_path(tokeniser: 'Tokeniser') -> AS2Path:
 
         elif len(as_path) == 0:
             try:
-                return AS2Path.make_aspath([SEQUENCE([ASN.from_string(value)])])
+                # 4-byte form: an AS number above 65535 is valid text (RFC 6793) and cannot be packed in 2 bytes;
+                # pack_attribute() turns it into AS_TRANS + AS4_PATH for a 2-byte peer
+                return AS2Path.make_aspath([SEQUENCE([ASN.from_string(value)])], asn4=True)
             except ValueError:
                 raise ValueError('could not parse as-path') from None
         else:
@@ -266,7 +268,7 @@ def as_path(tokeniser: 'Tokeniser') -> AS2Path:
 
                 # Filter out any ASN that snuck in, only keep segment types
                 segments = [seg for seg in as_path if isinstance(seg, (SEQUENCE, CONFED_SEQUENCE, SET, CONFED_SET))]
-                return AS2Path.make_aspath(segments)
+                return AS2Path.make_aspath(segments, asn4=True)
 
             try:
                 insert.append(ASN.from_string(value))
@@ -423,8 +425,10 @@ def _large_community(value: str) -> LargeCommunity:
 
         prefix_int, affix_int, suffix_int = map(int, [prefix, affix, suffix])
 
+        # RFC 8092: three 4-octet fields. They were compared with the maximum of the whole 96-bit value,
+        # so 4294967296:1:1 escaped the parser as struct.error
         for i in [prefix_int, affix_int, suffix_int]:
-            if i > LargeCommunity.MAX:
+            if i > 0xFFFFFFFF:
                 raise ValueError('invalid community %i in %s too large' % (i, value))
 
         return LargeCommunity(pack('!LLL', prefix_int, affix_int, suffix_int))
